@@ -30,6 +30,7 @@ func flood(variant, nextra, salt int64) {
 	type extra struct {
 		cid, rxt int64
 		li, lq   int
+		rx, ref  uint64 // receive and reference (= software transmit) stamp of the one reply this newcomer got
 	}
 	// small copy of the part of the store that can hold the minimum, used only to aim the next receive time
 	type ent struct{ cid, rxt int64 }
@@ -61,12 +62,12 @@ func flood(variant, nextra, salt int64) {
 		default: // just older than the least recently active client
 			rxt = minT - 1
 		}
-		basic(cid, rxt)
+		rep := basic(cid, rxt)
 		if rxt >= minT {
 			small[mi] = ent{cid, rxt}
 		}
 		a, b := server.VerifTSSLen()
-		ex = append(ex, extra{cid, rxt, a, b})
+		ex = append(ex, extra{cid, rxt, a, b, rep.rx, rep.ref})
 	}
 	snap := server.VerifSnapshotTSS()
 	have := map[int64]server.VerifTSSItem{}
@@ -82,6 +83,17 @@ func flood(variant, nextra, salt int64) {
 	for _, e := range ex {
 		if _, ok := have[e.cid]; ok {
 			extraState = append(extraState, lib.I(e.cid))
+		}
+	}
+	// what is on record for the newcomers that got state
+	var exState []string
+	for _, e := range ex {
+		if it, ok := have[e.cid]; ok {
+			es := make([]string, len(it.Entries))
+			for j, en := range it.Entries {
+				es[j] = lib.L(lib.U(t64num(en.Rxt)), lib.U(t64num(en.Txt)))
+			}
+			exState = append(exState, lib.L(lib.I(e.cid), lib.L(lib.U(e.rx), lib.U(e.ref)), lib.L(es...)))
 		}
 	}
 	// structural observations on the real queue
@@ -124,7 +136,7 @@ func flood(variant, nextra, salt int64) {
 			lib.L(lib.I(int64(li)), lib.I(int64(lq))),
 			lib.L(exs...), lib.L(lens...), lib.L(baseSurv...), lib.L(extraState...),
 			lib.L(lib.I(int64(len(snap.Items))), lib.I(int64(len(snap.Queue))), lib.I(int64(heapViol)), lib.I(int64(qidxViol)), lib.I(int64(qvalViol)), lib.U(q0)),
-			baseInputs(t0, step, window, capN)))
+			baseInputs(t0, step, window, capN), lib.L(exState...)))
 	server.VerifResetTSS()
 }
 
